@@ -284,6 +284,10 @@ case("attribute record kept: the record object is handed to somebody", {"h": _CT
 case("attribute record kept: another class reaches into it", {"h": _CT, "m": _DV + "class E(object):\n    def k(self, d):\n        return d._ids.value\n"}, "m", "f", has=["self._ids.value"])
 case("attribute record kept: re-bound outside the constructor", {"h": _CT, "m": _DV + "    def k(self):\n        self._ids = Ctr()\n"}, "m", "f", has=["self._ids"])
 
+case("constructor: independent attribute initialisations are put in one order", {"m": "from threading import Lock\nclass A(object):\n    def __init__(self, t):\n        self._z = Lock()\n        self._a = 0\n        self._t = t\n"}, "m", "__init__", has=["self._a = 0\n    self._t = t\n    self._z = Lock()"])
+case("constructor order kept: a value reads another attribute", {"m": "class A(object):\n    def __init__(self, t):\n        self._z = t\n        self._a = self._z\n"}, "m", "__init__", has=["self._z = t\n    self._a = self._z"])
+case("constructor order kept: a value is computed by an arbitrary call", {"m": "class A(object):\n    def __init__(self, t, g):\n        self._z = g()\n        self._a = g()\n"}, "m", "__init__", has=["self._z = g()\n    self._a = g()"])
+
 
 def main():
     bad = 0
